@@ -479,6 +479,16 @@ static void generate_minimal_hash(std::vector<std::string> str, Port_Matcher &pm
         return;
     }
     pm.assoc = find_assoc(str, pm.pos);
+    {
+        //find_assoc is a heuristic: if it leaves collisions, some ports would
+        //be unreachable through the hash, so use the linear lookup instead
+        auto hashed = do_hash(str, pm.pos, pm.assoc);
+        if(count_dups(hashed) != 0) {
+            fprintf(stderr, "rtosc: Failed to generate minimal hash\n");
+            pm.pos.clear();
+            return;
+        }
+    }
     pm.remap = find_remap(str, pm.pos, pm.assoc);
 }
 
